@@ -294,12 +294,25 @@ func (c *Chain) Run(epochs int) error {
 				return err
 			}
 		}
+		c.dumpHeld()
+		// branch points: a few per chain, preferably in the last slots of an epoch whose transition will change effective balances
+		maxBranches := 3
+		if epochs >= 16 {
+			maxBranches = 5
+		}
+		if c.branches < maxBranches {
+			toEnd := sp.SLOTS_PER_EPOCH - c.Slot()%sp.SLOTS_PER_EPOCH
+			if toEnd <= 2 && c.Epoch() >= 1 && (c.pendingEffBalChange() && c.Rng.Chance(70) || c.Rng.Chance(8)) {
+				c.Branch()
+			}
+		}
 		if c.Rng.Chance(4) {
 			if err := c.Reload(); err != nil {
 				return err
 			}
 		}
 	}
+	c.dumpHeld()
 	return nil
 }
 
